@@ -112,7 +112,8 @@ def run_case(spec):
         else:
             if out != "returned":
                 kind = "overridden" if data_dq else "qualified"
-                add("fit-did-not-return-a-model:%s:%s:%s" % (fam.kind, kind, out), "fit on %s data (override %s) raised %s: %s" % (kind, ign, out, str(exc)[:200]), ignore=ign, **tag)
+                prof = "" if fam.profile in ("current", "legacy", "default") else ":developer-profile-%s" % fam.profile
+                add("fit-did-not-return-a-model:%s:%s:%s%s" % (fam.kind, kind, out, prof), "fit on %s data (override %s) raised %s: %s" % (kind, ign, out, str(exc)[:200]), ignore=ign, **tag)
             else:
                 if data_dq:
                     I.reach("gate.fit_overridden")
@@ -203,6 +204,8 @@ def gen_cases(tier, seed):
         combos = [(f, d) for (f, d) in combos if d in ("none", "too_short", "poor_fit")] + [("daily:current", "day_gaps"), ("hourly:default", "month_gap")]
     else:
         combos = combos * 3
+        # developer / custom profiles too (thorough): the gate must not depend on the profile
+        combos += [(f, d) for d in ("none", "too_short", "poor_fit", "combination") for f in ("daily:legacy-dev-splits", "daily:dev-c_hdd", "daily:custom-maps", "daily:dev-nofinal", "hourly:robust", "hourly:noedge")]
     for f, d in combos:
         cases.append(dict(kind="gate", family=f, defect=d, tz=zones[k % len(zones)], n=k, timeout=3000))
         k += 1
